@@ -103,10 +103,10 @@ func kindOf(rel string) string {
 }
 
 type c28Scenario struct {
-	kind        string // upload shipper replicate delete
-	blocks      []fixtures.SynthSpec
-	concurrency int
-	srcDir      string
+	kind            string // upload shipper replicate delete
+	blocks          []fixtures.SynthSpec
+	concurrency     int
+	srcDir          string
 	uploadCompacted bool
 }
 
